@@ -103,11 +103,11 @@ theorem Sat.csK {β : Type} {m : P α β} (hm : CsK m) {R : β → BP α → Pro
   `Q` holds of every event that is not a component (`PlainQ`), and of every event the three component parsers return
   on this block (`CompQ`); then it holds of every event `parse_block` pushes. -/
 
-def Ev.isComp : Ev α → Bool
+def Ev.isComponent : Ev α → Bool
   | .ingredient _ | .cookware _ | .timer _ => true
   | _ => false
 
-def PlainQ (Q : Ev α → Prop) : Prop := ∀ ev : Ev α, ev.isComp = false → Q ev
+def PlainQ (Q : Ev α → Prop) : Prop := ∀ ev : Ev α, ev.isComponent = false → Q ev
 
 structure CompQ (Q : Ev α → Prop) (cs : CharSpec) (ts : List Tok) (e : Ext) : Prop where
   ingr : ∀ s : BP α, GE (AllQ Q) ts e s → s.cs = cs →
@@ -143,7 +143,7 @@ theorem stepOne_q (hw : WFI off w ts) (hz : Boundary off w 0) (hp : PlainQ Q) (h
           | some ev => s.cur < s'.cur ∧ Q ev) := by
       intro p hp1 hp2
       apply withRecover_sat
-      refine Sat.mono (Sat.both hp1 hp2) ?_
+      refine Sat.mono (Sat.sdatBoth hp1 hp2) ?_
       rintro r s1 ⟨⟨g1, h1, h2⟩, cs1, hq⟩
       cases r with
       | none => exact ⟨g1.setCur h.le, cs1, rfl⟩
@@ -326,11 +326,11 @@ theorem parseMultilineBlock_q (hw : WFI off w ts) (hz : Boundary off w 0) (hp : 
 
 instance sdat_trueStable : DiagStable (α := α) (fun _ => True) := ⟨fun _ _ _ => trivial, fun _ _ _ => trivial⟩
 
-theorem sectionP_shape : Sat (sectionP (α := α)) s (fun r _ => ∀ ev, r = some ev → ev.isComp = false) := by
-  have hk : Keeps (fun _ => True) (sectionP (α := α)) (fun r => ∀ ev, r = some ev → ev.isComp = false) := by
+theorem sectionP_shape : Sat (sectionP (α := α)) s (fun r _ => ∀ ev, r = some ev → ev.isComponent = false) := by
+  have hk : Keeps (fun _ => True) (sectionP (α := α)) (fun r => ∀ ev, r = some ev → ev.isComponent = false) := by
     unfold sectionP
     keeps
-    all_goals (refine Keeps.pure (fun ev hev => ?_); cases hev <;> simp [Ev.isComp])
+    all_goals (refine Keeps.pure (fun ev hev => ?_); cases hev <;> simp [Ev.isComponent])
   exact (hk.run s trivial).2
 
 theorem parseBlock_q (oldStyle : Bool) (hw : WFI off w ts) (hz : Boundary off w 0) (hp : PlainQ Q)
@@ -342,7 +342,7 @@ theorem parseBlock_q (oldStyle : Bool) (hw : WFI off w ts) (hz : Boundary off w 
   apply Sat.mono (Q := fun r s' => GE (AllQ Q) ts e s' ∧ s'.cs = cs ∧
     match r with
     | none => s'.cur = s.cur
-    | some ev => s'.cur = ts.length ∧ ev.isComp = false)
+    | some ev => s'.cur = ts.length ∧ ev.isComponent = false)
   · refine Sat.bind (peekK_sat h.g ?_)
     split
     · apply withRecover_sat
@@ -356,7 +356,7 @@ theorem parseBlock_q (oldStyle : Bool) (hw : WFI off w ts) (hz : Boundary off w 
         · exact Sat.pure ⟨g1.setCur h.le, cs1, rfl⟩
       · exact Sat.pure ⟨g1.setCur h.le, cs1, rfl⟩
     · apply withRecover_sat
-      refine Sat.mono (Sat.both (Sat.csK sectionP_csK hcs (sectionP_ev hc h)) (sectionP_shape (s := s))) ?_
+      refine Sat.mono (Sat.sdatBoth (Sat.csK sectionP_csK hcs (sectionP_ev hc h)) (sectionP_shape (s := s))) ?_
       rintro r1 s1 ⟨⟨⟨g1, h1, h2⟩, cs1⟩, hsh⟩
       cases r1 with
       | none => exact ⟨g1.setCur h.le, cs1, rfl⟩
@@ -512,7 +512,7 @@ theorem sdat_filter_all {l : List Tok} {p : Tok → Bool} (h : ∀ t ∈ l, p t 
   exact h
 
 /-- in a token stream, a run of adjacent tokens is determined by its span: it is the list of the tokens inside it -/
-theorem toksIn_of_infix {T toks : List Tok} {sp : Span} (hT : TokLine T) (hi : toks <:+: T) (hsp : SpanOf sp toks) :
+theorem toksIn_of_infix {T toks : List Tok} {sp : Span} (hT : TokLine T) (hi : toks <:+: T) (hsp : TokSpanOf sp toks) :
     toksIn T sp = toks := by
   obtain ⟨a, c, hac⟩ := hi
   obtain ⟨o, hch⟩ := hT.chain
@@ -590,7 +590,7 @@ theorem toksIn_of_infix {T toks : List Tok} {sp : Span} (hT : TokLine T) (hi : t
 
 /-- the value is what `parse_value` reads from the (adjacent) tokens of `T` inside its span -/
 def ValueRead (cs : CharSpec) (e : Ext) (T : List Tok) (v : Loc (Value α)) : Prop :=
-  toksIn T v.span <:+: T ∧ SpanOf v.span (toksIn T v.span) ∧
+  toksIn T v.span <:+: T ∧ TokSpanOf v.span (toksIn T v.span) ∧
     v.val = readValue cs (e.has Gen.EXT_RANGE_VALUES) v.span.start (toksIn T v.span)
 
 /-- the scaling lock is the span of one token, an `=` -/
@@ -602,7 +602,7 @@ def QValRead (cs : CharSpec) (e : Ext) (T : List Tok) (v : PQValue α) : Prop :=
 
 /-- the modifier set is what is read from the (adjacent) tokens of `T` inside its span -/
 def ModsRead (T : List Tok) (m : Loc Modifiers) : Prop :=
-  toksIn T m.span <:+: T ∧ SpanOf m.span (toksIn T m.span) ∧ m.val = readModifiers (toksIn T m.span)
+  toksIn T m.span <:+: T ∧ TokSpanOf m.span (toksIn T m.span) ∧ m.val = readModifiers (toksIn T m.span)
 
 /-- the reference data is the reading of the group `( … )` formed by the (adjacent) tokens of `T` inside its span -/
 def InterRead (T : List Tok) (d : Loc InterData) : Prop :=
@@ -627,7 +627,7 @@ theorem ValueAt.read {cs : CharSpec} {e : Ext} {T : List Tok} {v : Loc (Value α
 
 theorem LockAt.read {T : List Tok} {sp : Span} (hT : TokLine T) (h : LockAt T sp) : LockRead T sp := by
   obtain ⟨t, h1, h2, h3⟩ := h
-  have hs : SpanOf sp [t] := ⟨fun _ => by rw [h3]; simp [tokensSpan], fun h0 => by cases h0⟩
+  have hs : TokSpanOf sp [t] := ⟨fun _ => by rw [h3]; simp [tokensSpan], fun h0 => by cases h0⟩
   exact ⟨t, toksIn_of_infix hT h1 hs, h1, h2, h3⟩
 
 theorem QValAt.read {cs : CharSpec} {e : Ext} {T : List Tok} {v : PQValue α} (hT : TokLine T)
@@ -677,7 +677,7 @@ theorem pullEvents_evRead (cs : CharSpec) (ext : Ext) (input : List Char) :
   have hT := pullToks_tokLine cs input
   have hp : PlainQ (EvRead (α := α) cs ext (pullToks cs input)) := by
     intro ev hev
-    cases ev <;> first | trivial | (simp [Ev.isComp] at hev)
+    cases ev <;> first | trivial | (simp [Ev.isComponent] at hev)
   apply pullEvents_q cs ext input hp
   intro blk hB hw
   have hc := sdat_ctx (α := α) hw hp
@@ -721,7 +721,7 @@ theorem pullToks_emb (cs : CharSpec) (input : List Char) :
 
 theorem spanText_of {input : List Char} {T : List Tok} {sp : Span}
     (hemb : ∃ pre, input = pre ++ T.flatMap (·.text) ∧ Chain (utf8Len pre) T)
-    (hi : toksIn T sp <:+: T) (hsp : SpanOf sp (toksIn T sp)) (hb : Boundary 0 input sp.start) :
+    (hi : toksIn T sp <:+: T) (hsp : TokSpanOf sp (toksIn T sp)) (hb : Boundary 0 input sp.start) :
     SpanText input T sp := by
   unfold SpanText
   generalize toksIn T sp = toks at hi hsp
@@ -748,11 +748,11 @@ theorem spanText_of {input : List Char} {T : List Tok} {sp : Span}
 
 /-! ### the metadata-only stream carries no component -/
 
-theorem metadataEntry_shape : Sat (metadataEntry (α := α)) s (fun r _ => ∀ ev, r = some ev → ev.isComp = false) := by
-  have hk : Keeps (fun _ => True) (metadataEntry (α := α)) (fun r => ∀ ev, r = some ev → ev.isComp = false) := by
+theorem metadataEntry_shape : Sat (metadataEntry (α := α)) s (fun r _ => ∀ ev, r = some ev → ev.isComponent = false) := by
+  have hk : Keeps (fun _ => True) (metadataEntry (α := α)) (fun r => ∀ ev, r = some ev → ev.isComponent = false) := by
     unfold metadataEntry
     keeps
-    all_goals (refine Keeps.pure (fun ev hev => ?_); cases hev <;> simp [Ev.isComp])
+    all_goals (refine Keeps.pure (fun ev hev => ?_); cases hev <;> simp [Ev.isComponent])
   exact (hk.run s trivial).2
 
 theorem runMetaBlock_q (cs : CharSpec) (ext : Ext) (blk : List Tok) (evs : Array (Ev α))
@@ -774,7 +774,7 @@ theorem runMetaBlock_q (cs : CharSpec) (ext : Ext) (blk : List Tok) (evs : Array
       | none => pure ()) ⟨blk, 0, ext, cs, evs, none⟩
       (fun _ s' => AllQ Q s'.evs) := by
     simp only [hne, Bool.false_eq_true, if_false]
-    refine Sat.bind (Sat.mono (Sat.both (metadataEntry_ev hc g0) metadataEntry_shape) ?_)
+    refine Sat.bind (Sat.mono (Sat.sdatBoth (metadataEntry_ev hc g0) metadataEntry_shape) ?_)
     rintro r s1 ⟨⟨g1, c1, hr⟩, hsh⟩
     cases r with
     | none => exact Sat.pure g1.evs
@@ -827,5 +827,5 @@ theorem pullMetaEvents_evRead (cs : CharSpec) (ext : Ext) (input : List Char) :
     ∀ ev ∈ (pullMetaEvents (α := α) cs ext input).1.toList, EvRead cs ext (pullToks cs input) ev := by
   apply pullMetaEvents_q
   intro ev hev
-  cases ev <;> first | trivial | (simp [Ev.isComp] at hev)
+  cases ev <;> first | trivial | (simp [Ev.isComponent] at hev)
 end Cook
